@@ -69,3 +69,25 @@ func VerifMergeRanges(ranges []VerifRange, overfetch float32) ([]VerifPlan, uint
 	}
 	return out, total
 }
+
+// VerifMultiRange is one batched multi-range request of sync.
+type VerifMultiRange struct {
+	Str    string
+	Ranges []VerifRange
+}
+
+func VerifMakeMultiRanges(ranges []VerifRange, baseOffset int64, maxHeaderBytes int) []VerifMultiRange {
+	in := make([]srcDstRange, len(ranges))
+	for i, r := range ranges {
+		in[i] = srcDstRange{r.Src, r.Dst, r.Len}
+	}
+	var out []VerifMultiRange
+	for _, m := range makeMultiRanges(in, baseOffset, maxHeaderBytes) {
+		v := VerifMultiRange{Str: m.str}
+		for _, r := range m.ranges {
+			v.Ranges = append(v.Ranges, VerifRange{r.SrcOffset, r.DstOffset, r.Length})
+		}
+		out = append(out, v)
+	}
+	return out
+}
